@@ -322,13 +322,35 @@ func runQueries(o *hx.Opts, r *hx.Rand, res *hx.Result, em *emitter) {
 		panic(err)
 	}
 
-	n := o.Count(600, 20000)
+	// EXHAUSTIVE part (every run, no randomness in what is covered): every registered URN scheme x every way of
+	// writing the property (scheme, urns.scheme, URNS.SCHEME) x every comparator, with a value -> must be rejected
+	// under the policy; the twins hold a URN of that scheme and the value is side A's path where it can be written
+	type sweepItem struct{ scheme, prop, op, form string }
+	var sweep []sweepItem
+	for _, s := range allSchemes() {
+		for _, op := range qOps {
+			sweep = append(sweep, sweepItem{s, s, op, "scheme"}, sweepItem{s, "urns." + s, op, "dotted-urns"},
+				sweepItem{s, "URNS." + strings.ToUpper(s), op, "dotted-urns"}, sweepItem{s, strings.ToUpper(s[:1]) + s[1:], op, "scheme"})
+		}
+	}
+	for _, op := range qOps {
+		sweep = append(sweep, sweepItem{"tel", "urn", op, "urn-attribute"}, sweepItem{"tel", "URN", op, "urn-attribute"})
+	}
+	res.Notes = append(res.Notes, fmt.Sprintf("exhaustive query sweep: %d conditions = %d schemes x 4 spellings x %d comparators + the urn attribute", len(sweep), len(allSchemes()), len(qOps)))
+
+	n := o.Count(600, 20000) + len(sweep)
 	nRejected, nAccepted, nEval := 0, 0, 0
 	for i := 0; i < n; i++ {
 		rr := r.Fork(fmt.Sprintf("q%d", i))
 		// twin contacts for this query
 		tc := &twinContacts{Name: hx.Pick(rr, []string{"", "Bob", "Ann Lee"})}
 		nslots := rr.Range(0, 3)
+		var sw *sweepItem
+		if i < len(sweep) {
+			sw = &sweep[i]
+			nslots = 0
+			tc.Slots = append(tc.Slots, genSlot(r.Fork("sweep-"+sw.scheme), sw.scheme, "", 0, false))
+		}
 		for j := 0; j < nslots; j++ {
 			scheme := "tel"
 			if rr.Bool() {
@@ -349,17 +371,25 @@ func runQueries(o *hx.Opts, r *hx.Rand, res *hx.Result, em *emitter) {
 			}
 		}
 		var qt *qtree
+		k := i - len(sweep)
 		switch {
-		case i == 0:
+		case sw != nil:
+			v := "x12345"
+			if p := ca.URNs()[0].URN().Path(); simpleText.MatchString(p) && len(p) >= 3 {
+				v = p
+			}
+			qt = &qtree{Kind: "cond", Prop: sw.prop, Op: sw.op, Value: v, Form: sw.form}
+			res.Dist("query_sweep=scheme-x-spelling-x-comparator")
+		case k == 0:
 			qt = &qtree{Kind: "cond", Prop: "urns.tel", Op: "=", Value: "123", Form: "dotted-urns"} // F15
-		case i == 1:
+		case k == 1:
 			qt = &qtree{Kind: "or", Kids: []*qtree{{Kind: "cond", Prop: "name", Op: "=", Value: "Bob", Form: "name"},
 				{Kind: "group", Kids: []*qtree{{Kind: "cond", Prop: "URNS.Tel", Op: "~", Value: "2065", Form: "dotted-urns"}}}}}
-		case i == 2:
+		case k == 2:
 			qt = &qtree{Kind: "cond", Prop: "tel", Op: "=", Value: "123", Form: "scheme"}
-		case i == 3:
+		case k == 3:
 			qt = &qtree{Kind: "cond", Prop: "urn", Op: "~", Value: "2065", Form: "urn-attribute"}
-		case i == 4:
+		case k == 4:
 			qt = &qtree{Kind: "implicit", Value: "+12065551212"}
 		default:
 			qt = genQuery(rr, rr.Range(0, 3), vals)
@@ -452,7 +482,9 @@ func runQueries(o *hx.Opts, r *hx.Rand, res *hx.Result, em *emitter) {
 		// tells A from B
 		if len(tc.Slots) > 0 && tc.Slots[0].A != tc.Slots[0].B {
 			ua := ca.URNs()[0].URN()
-			if ua.Path() != cb.URNs()[0].URN().Path() && simpleText.MatchString(ua.Path()) {
+			// "differ" as the evaluator can see it: text comparison lower-cases and trims both sides
+			norm := func(p string) string { return strings.TrimSpace(strings.ToLower(p)) }
+			if norm(ua.Path()) != norm(cb.URNs()[0].URN().Path()) && simpleText.MatchString(ua.Path()) {
 				t := fmt.Sprintf("%s = %s", ua.Scheme(), contactql.QuoteValue(ua.Path()))
 				res.OracleChecks++
 				q, err := contactql.ParseQuery(envOff, t, sa)
